@@ -184,6 +184,9 @@ type Raft struct {
 	// Notifies election loop to start an election.
 	electionCond *sync.Cond
 
+	// Indicates that this node has won a prevote and has not started the election it won it for yet.
+	prevoteWon bool
+
 	// Notifies snapshot loop that a snapshot should be taken.
 	snapshotCond *sync.Cond
 
@@ -1252,11 +1255,16 @@ func (r *Raft) election() {
 		time.Since(r.lastContact) < r.options.electionTimeout {
 		return
 	}
-	if r.state == Follower {
+	// A candidate that is here because its election timed out, and not because it has just won
+	// a prevote, must win a prevote again before it may increment its term once more. Otherwise, a
+	// candidate that is cut off from the cluster would increment its term on every election timeout
+	// and force the leader to step down when it is able to communicate with the cluster again.
+	if r.state == Follower || (r.state == Candidate && !r.prevoteWon) {
 		r.becomePreCandidate()
 	}
 	if r.state == Candidate {
 		r.becomeCandidate()
+		r.prevoteWon = false
 	}
 
 	r.sendRequestVoteToPeers()
@@ -1338,10 +1346,11 @@ func (r *Raft) sendRequestVote(id string, address string, votes *int, prevote bo
 
 	// If this is a prevote and a majority of the cluster respond with success to this node's
 	// vote requests, become a candidate.
-	if r.hasQuorum(*votes) && r.state == PreCandidate {
+	if prevote && r.hasQuorum(*votes) && r.state == PreCandidate {
 		// Signal to the election loop to start an election so that the real election
 		// does not have to wait until the election ticker goes off again.
 		r.state = Candidate
+		r.prevoteWon = true
 		r.electionCond.Broadcast()
 	}
 
@@ -1927,6 +1936,7 @@ func (r *Raft) becomeCandidate() {
 // This does not increment the term or cast a vote for this node.
 func (r *Raft) becomePreCandidate() {
 	r.state = PreCandidate
+	r.prevoteWon = false
 	r.logger.Infof("entered the pre-candidate state: term = %d", r.currentTerm)
 }
 
